@@ -331,7 +331,43 @@ def i4(prog, ctx):
             ctx.ok("I4", "%s:%d" % (DSP, pr[0].lineno), "both GFF printers of the task share the exon id storage")
 
 
+def i5(prog, ctx):
+    """Identifier tables and distributors hold no process-wide (class-level / module-level) mutable state."""
+    from ..engine import carried
+    locs = carried.class_level_locations(prog)
+    id_classes = ("GFFPrinter", "FeatureIdStorage", "SimpleIDDistributor", "ExcludingIdDistributor", "AtomicIDDistributor", "TranscriptNaming")
+    n = 0
+    for (cname, attr), (m, c, st, why) in sorted(locs.items()):
+        if cname not in id_classes:
+            continue
+        n += 1
+        acc = carried.accesses_of_class_attr(prog, cname, attr)
+        muts = [a for a in acc if a[4] in ("mutate", "write")]
+        if muts:
+            mm = muts[0]
+            ctx.fail("I5", mm[3], mm[1], "%s.%s" % (cname, attr),
+                     "class-level %s.%s (%s) is modified at run time: identifiers handed out for one chromosome / experiment depend on "
+                     "what the same process handled before (ids collide or differ between --threads values)" % (cname, attr, why))
+        else:
+            ctx.ok("I5", "%s:%d" % (m.rel, st.lineno), "%s.%s is never modified (no process-wide id state)" % (cname, attr))
+    # instance state of the distributors / storages is created in __init__, not shared
+    for cname in ("ExcludingIdDistributor", "FeatureIdStorage"):
+        init = prog.func(IDP, cname + ".__init__")
+        for a in ("forbidden_ids", "id_dict"):
+            if (cname == "ExcludingIdDistributor") == (a == "forbidden_ids"):
+                defs = [s for s in walk_no_nested(init) if isinstance(s, ast.Assign) and dotted(s.targets[0]) == "self." + a]
+                if not defs or not isinstance(defs[0].value, (ast.Call, ast.Dict, ast.Set)) or src(defs[0].value) not in ("set()", "{}", "dict()"):
+                    ctx.fail("I5", init, init._qualname, "self.%s" % a, "%s.%s is not created fresh per instance (found %s)"
+                             % (cname, a, [src(d) for d in defs]))
+                else:
+                    ctx.ok("I5", "%s:%d" % (IDP, defs[0].lineno), "%s.%s created fresh per instance" % (cname, a))
+                n += 1
+    ctx.floor("I5", "id-related state locations examined", n, 3)
+
+
 def run(prog, ctx):
+    ctx.rule("I5", "GFFPrinter / FeatureIdStorage / id distributors keep no class-level mutable state that is modified at run time; "
+                   "their tables are created fresh in __init__")
     ctx.rule("I1", "a lookup-or-allocate memo (tests key, stores on miss, returns stored value on hit) returns on the miss path "
                    "exactly the value it stored (path-wise symbolic comparison)")
     ctx.rule("I2", "id strings built from TranscriptNaming prefixes take their number from self.id_distributor.increment(); the "
@@ -344,5 +380,6 @@ def run(prog, ctx):
     i2(prog, ctx)
     i3(prog, ctx)
     i4(prog, ctx)
+    i5(prog, ctx)
     ctx.floor("I1", "value-returning memo functions", n1, 1)
     ctx.assume("global uniqueness across files and ids already present in arbitrary annotations are not decided")
